@@ -326,11 +326,12 @@ func c20(c *fw.Ctx) {
 		}
 	}
 	// exhaustive small counter vectors
+	maxEntry := c.Pick(6, 8)
 	for length := 3; length <= 6; length++ {
 		pats := c20Patterns[length]
 		for pi, p := range pats {
 			// chunk by first entry
-			for first := 0; first <= 6; first++ {
+			for first := 0; first <= maxEntry; first++ {
 				length, p, first := length, p, first
 				c.Run(fmt.Sprintf("pmv/exh/%d/%d/%d", length, pi, first), func(r *fw.Rec) {
 					cvec := make([]int, length)
@@ -346,7 +347,7 @@ func c20(c *fw.Ctx) {
 							r.NontrivialH(hashInts(cvec, p))
 							return true
 						}
-						for v := 0; v <= 6; v++ {
+						for v := 0; v <= maxEntry; v++ {
 							cvec[i] = v
 							if !rec(i + 1) {
 								return false
@@ -362,7 +363,7 @@ func c20(c *fw.Ctx) {
 			}
 		}
 	}
-	c.Exhaustive("PatternMatchVariance counter vectors with entries 0..6, lengths 3..6, for the listed patterns and limits")
+	c.Exhaustive(fmt.Sprintf("PatternMatchVariance counter vectors with entries 0..%d, lengths 3..6, for the listed patterns and limits", maxEntry))
 	// random vectors, larger entries, random patterns, scale invariance
 	nrand := c.Pick(4000, 100000)
 	for k := 0; k < nrand; k++ {
